@@ -269,6 +269,14 @@ def gen_expiry(seed, big):
         exp = 'A\nC\n' if ready else src
         out.append((dict(cfg(current=cur), mode='clean', source=src, ds='<', de='>'),
                     (lambda e, t, c: lambda r: None if r.get('ok') and r.get('output') == e else f'expiry decision wrong for a far-away date to={t} now={c}: ' + json.dumps(r, ensure_ascii=False)[:160])(exp, to, cur)))
+    # second 60 (a leap second, which chrono accepts) lies AFTER second 59: the element is not ready at ...:59 and at
+    # ...:59.750, it is ready at the next full second
+    for to, cur, ready in (('2016-12-31 23:59:60', '2016-12-31T23:59:59+00:00', False), ('2016-12-31 23:59:60', '2016-12-31T23:59:59.750+00:00', False),
+                           ('2016-12-31 23:59:60', '2017-01-01T00:00:00+00:00', True), ('2024-06-30 23:59:60', '2024-06-30T23:59:58+00:00', False)):
+        src = f"A\n<{TL} to='{to}'>\nB\n</{TL}>\nC\n"
+        exp = 'A\nC\n' if ready else src
+        out.append((dict(cfg(current=cur), mode='clean', source=src, ds='<', de='>'),
+                    (lambda e, t, c: lambda r: None if r.get('ok') and r.get('output') == e else f'expiry decision wrong around a leap second to={t} now={c}: ' + json.dumps(r, ensure_ascii=False)[:160])(exp, to, cur)))
     # spellings chrono's "%Y-%m-%d %H:%M:%S" accepts besides the canonical one (fields without zero padding): a date is a
     # date however it is spelled
     for to in ('2020-1-5 9:00:00', '2020-1-05 09:0:0', '2020-01-5 9:5:7'):
@@ -339,6 +347,11 @@ def gen_marker(seed, big):
     out.append((dict(cfg(), mode='clean', source=src, ds='<', de='>'), (lambda s: lambda r: None if r.get('ok') and r.get('output') == s else 'element with skip and unwrap-block was changed')(src)))
     src = f"A\n<{TL} to='{PAST}' skip>\nB\n</{TL}>\nC\n"
     out.append((dict(cfg(), mode='clean', source=src, ds='<', de='>'), (lambda s: lambda r: None if r.get('ok') and r.get('output') == s else 'expired element with skip was removed')(src)))
+    # ... and a skipped element does not protect the ready elements AROUND it: they go, and it goes with them
+    for inner in (f"{RM} skip name='f1'", f"{TL} to='{PAST}' skip", f"{RM} name='zz' skip"):
+        close = inner.split(' ')[0]
+        src = f"A<{RM} name='f1'>B<div><{inner}>C</{close}></div>D</{RM}>E\n"
+        out.append((dict(cfg(), mode='clean', source=src, ds='<', de='>'), (lambda k: lambda r: None if r.get('ok') and r.get('output') == 'AE\n' else f'a ready element that contains a skipped one [{k}] is still removed as a whole: ' + json.dumps(r, ensure_ascii=False)[:200])(inner)))
     # skip protects the element itself ("on its own account"), not the ready elements nested in it
     for skipper in (f"{TL} to='{PAST}' skip", f"{RM} name='f1' skip", f"{RM} skip='yes' name='zz'", "section skip"):
         close = skipper.split(' ')[0]
@@ -629,7 +642,7 @@ def gen_dedent(seed, big):
         levels = [f] + [max(0, f + rnd.randint(-2, 2)) for _ in range(n - 1)]
         shift = max(0, f - t)
         extras = None
-        texts = [rnd.choice(['x();', 'これ', 'y = 2; // é', '\u00a0nbsp();', '\u3000wide();', '\u00a0\u00a0two', 'cr();\r', '\x0bvt']) + str(i) for i in range(n)]
+        texts = [rnd.choice(['x();', 'これ', 'y = 2; // é', '\u00a0nbsp();', '\u3000wide();', '\u00a0\u00a0two', 'cr();\r', '\x0bvt']) + str(i) + rnd.choice(['', '', '', '  ', '\t', ' \t ']) for i in range(n)]
         final_nl = rnd.random() < 0.7
         tail = rnd.random() < 0.7
         src = 'q\n' + unit * t + f"<{RM} name='f1' unwrap-block>\n" + unit * t + 'if a {\n'
@@ -1217,6 +1230,56 @@ def gen_equal_tag_names(seed, big):
     return out
 
 
+def gen_unwrap_inline_mix(seed, big):
+    """C02/C14: an indented unwrap-block (not on the first line) whose body mixes code lines, lines that hold only a
+    removed inline element (indented deeper, with trailing blanks), lines that begin with a removed element and go on with
+    code, whitespace-only lines and empty lines. The non-white-space text of the output is the text of the code pieces,
+    in order - nothing outside the removed extents is lost."""
+    rnd = random.Random(seed + 23)
+    out = []
+    R = lambda k: rnd.choice([f"<{RM} name='f1'> old{k}() </{RM}>", f"<{TL} to='{PAST}'>o{k}</{TL}>"])
+    for case in range(600 if big else 200):
+        ind = rnd.choice(['  ', '    ', '\t'])
+        lines, keep = ['fn main() {'], ['fn main() {']
+        lines += [ind + f"<{TL} to='{PAST}' unwrap-block>", ind + 'if (released) {']
+        prev = None
+        for k in range(rnd.randint(2, 6)):
+            kind = rnd.choice(['code', 'code', 'only_removal', 'removal_then_code', 'code_then_removal', 'blank', 'empty'])
+            if prev == 'only_removal' and rnd.random() < 0.6:
+                kind = 'removal_then_code'
+            if prev is None:
+                kind = 'code'
+            # body lines sit at two units; a line that holds only a removed element (or only blanks) is often deeper
+            deep = ind * 2 + (ind * rnd.randint(0, 2) if kind in ('only_removal', 'blank') else '')
+            trail = rnd.choice(['', '', '  ', '\t'])
+            prev = kind
+            if kind == 'code':
+                t = f'code{k}();'; lines.append(deep + t + trail); keep.append(t)
+            elif kind == 'only_removal':
+                lines.append(deep + R(k) + trail)
+            elif kind == 'removal_then_code':
+                t = f'rest{k}();'; lines.append(deep + R(k) + ' ' + t + trail); keep.append(t)
+            elif kind == 'code_then_removal':
+                t = f'pre{k}();'; lines.append(deep + t + ' ' + R(k) + trail); keep.append(t)
+            elif kind == 'blank':
+                lines.append(deep)
+            else:
+                lines.append('')
+        lines += [ind + '}', ind + f"</{TL}>", ind + 'after_block();', '}']
+        keep += ['after_block();', '}']
+        src = '\n'.join(lines) + '\n'
+        want = strip_ws(''.join(keep))
+        def oracle(r, want=want, src=src):
+            if not r.get('ok'):
+                return 'clean panicked: ' + str(r.get('panic'))[:160]
+            got = strip_ws(r['output'])
+            if got != want:
+                return f'non-whitespace text differs: expected {want!r} got {got!r} (source {src!r})'
+            return None
+        out.append((dict(cfg(), mode='clean', source=src, ds='<', de='>'), oracle))
+    return out
+
+
 def gen_blanklines(seed, big):
     """C13: block-style removal with b blank lines before and a after leaves a+b-[a>0 and b>0] blank lines; lines intact"""
     out = []
@@ -1238,6 +1301,31 @@ def gen_blanklines(seed, big):
                             return f'{i1 - i0 - 1} blank lines remain, expected {want}: {r["output"]!r}'
                         return None
                     out.append((dict(cfg(), mode='clean', source=src, ds='<', de='>'), oracle))
+    return out
+
+
+def gen_blanklines_wide(seed, big):
+    """C13, second half, with indentation and whitespace-only lines wider than any fixed scan window (65, 70, 130, 300
+    blanks; tabs too): with b blank lines before and a behind a removed block, a + b - 1 (both > 0) remain"""
+    out = []
+    for width, ch in ((65, ' '), (70, '\t'), (130, ' '), (300, ' '), (64, ' '), (63, ' ')):
+        I = ch * width
+        for a, b in ((1, 1), (2, 1), (1, 2), (0, 1), (1, 0)):
+            for blank in ('', I):
+                src = 'top\n' + I + 'keep\n' + (blank + '\n') * b + I + f"<{TL} to='{PAST}'>\n" + I + 'x\n' + I + f"</{TL}>\n" + (blank + '\n') * a + I + 'after\n'
+                want = a + b - (1 if a > 0 and b > 0 else 0)
+                def oracle(r, want=want, I=I, width=width):
+                    if not r.get('ok'):
+                        return 'clean panicked: ' + str(r.get('panic'))[:160]
+                    lines = r['output'].split('\n')
+                    nb = [l for l in lines if l.strip(WS)]
+                    if nb != ['top', I + 'keep', I + 'after']:
+                        return f'surviving lines not intact with indentation width {width}: {[l.strip(WS) for l in nb]}'
+                    i0 = lines.index(I + 'keep'); i1 = lines.index(I + 'after')
+                    if i1 - i0 - 1 != want:
+                        return f'{i1 - i0 - 1} blank lines remain, expected {want} (indentation width {width})'
+                    return None
+                out.append((dict(cfg(), mode='clean', source=src, ds='<', de='>'), oracle))
     return out
 
 
@@ -1546,8 +1634,8 @@ def _back_same(t, d):
 
 GENERATORS = {
     'C01': [gen_totality], 'C04': [gen_identity, gen_identity_unwrappable, gen_identity_unrecognised, gen_identity_unexpired, gen_identity_decisions, gen_tag_whitespace, gen_case_sensitive, gen_equal_tag_names], 'C07': [gen_partition], 'C08': [gen_recognition, gen_recognition_entry], 'C05': [gen_expiry, gen_env_independent_expiry], 'C06': [gen_marker, gen_tag_whitespace, gen_case_sensitive, gen_equal_tag_names],
-    'C09': [gen_grammar, gen_opaque_decisions], 'C10': [gen_pairing], 'C02': [gen_blocks, gen_inline, gen_nested_text_survives, gen_unwrap_crlf_text, gen_odd_whitespace_lines, gen_tag_whitespace, gen_large_clean, gen_case_sensitive], 'C03': [gen_blocks, gen_inline, gen_nested_text_survives, gen_unwrap_crlf_text, gen_closer_attrs, gen_large_clean, gen_doubled_delims], 'C11': [gen_blocks, gen_unwrap_wrappers, gen_unwrap_four_lines, gen_identity_unwrappable, gen_unwrap_crlf_text, gen_unwrap_comments], 'C17': [gen_list_all],
-    'C12': [gen_dedent, gen_dedent_nested, gen_dedent_crlf], 'C13': [gen_blanklines, gen_lines_intact, gen_odd_whitespace_lines], 'C14': [gen_inline, gen_dedent_nested, gen_unwrap_lines_intact, gen_unwrap_lines_intact_crlf], 'C15': [gen_list_regions, gen_env_independent_list, gen_large_list],
+    'C09': [gen_grammar, gen_opaque_decisions], 'C10': [gen_pairing], 'C02': [gen_blocks, gen_inline, gen_nested_text_survives, gen_unwrap_crlf_text, gen_odd_whitespace_lines, gen_tag_whitespace, gen_large_clean, gen_case_sensitive, gen_unwrap_inline_mix], 'C03': [gen_blocks, gen_inline, gen_nested_text_survives, gen_unwrap_crlf_text, gen_closer_attrs, gen_large_clean, gen_doubled_delims], 'C11': [gen_blocks, gen_unwrap_wrappers, gen_unwrap_four_lines, gen_identity_unwrappable, gen_unwrap_crlf_text, gen_unwrap_comments], 'C17': [gen_list_all],
+    'C12': [gen_dedent, gen_dedent_nested, gen_dedent_crlf], 'C13': [gen_blanklines, gen_blanklines_wide, gen_lines_intact, gen_odd_whitespace_lines], 'C14': [gen_inline, gen_dedent_nested, gen_unwrap_lines_intact, gen_unwrap_lines_intact_crlf, gen_unwrap_inline_mix], 'C15': [gen_list_regions, gen_env_independent_list, gen_large_list],
 }
 
 GENERATORS['C01'] = GENERATORS['C01'] + [gen_totality_everywhere, gen_totality_extreme_dates]
@@ -1560,7 +1648,8 @@ def run(prop, drive, seed=0, big=False):
         cases = g(seed, big)
         n += len(cases)
         reqs = [c[0] for c in cases]
-        outs = drive([{k: v for k, v in r.items() if not k.startswith('_')} for r in reqs])
+        # every other request keeps a second handle on the source (Rc) alive across the call: `share`
+        outs = drive([dict({k: v for k, v in r.items() if not k.startswith('_')}, share=(j % 2 == 1)) for j, r in enumerate(reqs)])
         extra = {}
         pairs = [i for i, c in enumerate(cases) if isinstance(c[1], tuple)]
         if pairs:
